@@ -222,6 +222,10 @@ impl<'a> Sess<'a> {
                 v["to"] = json!(to);
                 v["tok"] = json!([toks(&seven(&sk)), toks(&seven(&b)), toks(&seven_w(&w))]);
                 v["same"] = json!(again == bytes);
+                // C01: the wrapper's own bounds and estimate (order projection; relative spread as for a sketch)
+                let sw = seven_w(&w);
+                v["wb"] = json!(ranks(&sw));
+                v["wrel"] = crate::fam_hll::rel6(&sw);
                 v["wrap_lgk"] = json!(w.lg_k());
                 v["wrap_emp"] = json!(w.is_empty());
                 self.out.ev(v);
@@ -463,12 +467,12 @@ pub fn record(args: &Args) {
                     let id = s.new_sketch(lgk);
                     crafted_walk(&mut s, &mut rng, id, lgk, if lgk == 7 { 40 } else { 24 });
                 }
-                let larger: &[u8] = if thorough && rep == 0 { &[10, 12, 13, 14] } else { &[10, 12] };
+                let larger: &[u8] = if thorough && rep == 0 { &[10, 12, 13] } else { &[10, 12] };
                 for &lgk in larger {
                     let k = 1usize << lgk;
                     let mut s = Sess::new(&mut out, "cpc-public-stream");
                     let id = s.new_sketch(lgk);
-                    stream_public(&mut s, &mut rng, id, lgk, if lgk == 10 { 5 * k } else if lgk == 12 { k } else { 3 * k }, 1500);
+                    stream_public(&mut s, &mut rng, id, lgk, if lgk == 10 { 5 * k } else { k }, 1500);
                     let r = s.rt(id);
                     s.chk(r);
                 }
